@@ -542,7 +542,7 @@ func c09Apply(st *c09State, mu MutC09) string {
 		if len(hs) != len(md.MID) {
 			return ""
 		}
-		i := int(mu.V>>8) % len(hs)
+		i := int((mu.V >> 8) % uint64(len(hs)))
 		ty := byte(1 + mu.V%12)
 		data := mu.Data
 		if data == nil {
@@ -558,7 +558,7 @@ func c09Apply(st *c09State, mu MutC09) string {
 		if len(hs) == 0 || len(hs) != len(md.Comps) {
 			return ""
 		}
-		i := int(mu.V>>40) % len(hs)
+		i := int((mu.V >> 40) % uint64(len(hs)))
 		off := mu.V & m33
 		hs[i].SetPTSOffset(gots.PTS(mu.V)) // possibly wider than the 33-bit field
 		hs[i].SetComponentTag(byte(mu.V >> 33))
